@@ -45,6 +45,7 @@ package dtlcp
 //	                                      is never part of the transcript.
 //	    s.SendCCS()                     – ChangeCipherSpec; installs the write keys when the
 //	                                      master secret is known
+//	    s.SendCoalesced(kinds...)       – several handshake messages in ONE record
 //	    s.SendAlert(level, desc), s.SendAppData(p), s.SendEmptyRecord(recordType),
 //	    s.SendRecord(recordType, payload)
 //	opts (VerifSendOpts): Body / Raw (caller supplied message), Mutate, NoTranscript,
@@ -142,6 +143,7 @@ type VerifScript struct {
 	peerCerts   []*x509.Certificate
 	peerCertDER [][]byte
 	lastSent    map[string][]byte
+	coalesce    *[]byte
 }
 
 // NewVerifScript creates a scripted peer over conn. role is "server" or "client".
@@ -867,6 +869,21 @@ func (s *VerifScript) build(kind string, o *VerifSendOpts) ([]byte, error) {
 	return nil, fmt.Errorf("verif script: unknown message kind %q", kind)
 }
 
+// SendCoalesced builds the given handshake messages one after the other (each recorded in the
+// transcript like Send does) and writes them back to back in ONE handshake record.
+func (s *VerifScript) SendCoalesced(kinds ...string) error {
+	var all []byte
+	s.coalesce = &all
+	defer func() { s.coalesce = nil }()
+	for _, k := range kinds {
+		if err := s.Send(k, nil); err != nil {
+			return err
+		}
+	}
+	s.coalesce = nil
+	return s.writeRecord(recordTypeHandshake, all)
+}
+
 // Send builds (or takes from opts) the handshake message of the given kind, records it in the
 // script's transcript and writes it as one handshake record under the current write keys.
 func (s *VerifScript) Send(kind string, o *VerifSendOpts) error {
@@ -925,6 +942,10 @@ func (s *VerifScript) Send(kind string, o *VerifSendOpts) error {
 	}
 	if !o.NoTranscript {
 		s.record(kind, raw)
+	}
+	if s.coalesce != nil {
+		*s.coalesce = append(*s.coalesce, raw...)
+		return nil
 	}
 	// one unfragmented handshake record (the in-memory transports carry datagrams of any size)
 	return s.writeRecord(recordTypeHandshake, raw)
